@@ -1,6 +1,6 @@
 (* C03 — property theorems only.  Each is closed by `exact` of a lemma of C03_Proofs.v. *)
 From Coq Require Import List NArith ZArith Bool.
-From Dae Require Import C03_Spec C03_Model C03_Proofs C03_ParseProofs C03_BytesProofs C03_SeqProofs.
+From Dae Require Import C03_Spec C03_Model C03_Proofs C03_ParseProofs C03_BytesProofs C03_SeqProofs C03_HookProofs C03_FreshProofs.
 From Dae.gen Require Import C03_Consts C03_Layout.
 Import ListNotations.
 Open Scope N_scope.
@@ -104,7 +104,7 @@ Theorem C03_sticky_decision_tcp :
     pp_l4 pk = IPPROTO_TCP -> tcp_flags_new (pp_tcp pk) = false ->
     lan_ingress P (with_route e f) st (0%Z, Some pk) = lan_ingress P e st (0%Z, Some pk) /\
     wan_egress P (with_route e f) st (0%Z, Some pk) = wan_egress P e st (0%Z, Some pk).
-Proof. intros; split; [apply lan_tcp_sticky_proof | apply wan_tcp_sticky_proof]; assumption. Qed.
+Proof. exact C03_sticky_decision_tcp_glue. Qed.
 Print Assumptions C03_sticky_decision_tcp.
 
 (* ... and tracking ends only by a pure SYN or the idle timeout: any other packet of the flow, seen by any of
@@ -135,7 +135,7 @@ Theorem C03_sticky_decision_udp_partial :
      lan_ingress P (with_route e f) st (0%Z, Some pk) = lan_ingress P e st (0%Z, Some pk)) /\
     (cs_has (fst (mark_udp_seen (ks_conn st) (pp_key pk) false no_args (e_now e))) =? 0 = false ->
      wan_egress P (with_route e f) st (0%Z, Some pk) = wan_egress P e st (0%Z, Some pk)).
-Proof. intros; split; intro; [apply lan_udp_sticky_proof | apply wan_udp_sticky_proof]; assumption. Qed.
+Proof. exact C03_sticky_decision_udp_partial_glue. Qed.
 Print Assumptions C03_sticky_decision_udp_partial.
 
 (* Sticky decision over packet sequences (TCP): take any state in which flow k has a stored decision d, and any
@@ -168,7 +168,7 @@ Theorem C03_sticky_decision_verdict :
     dec_of (ks_conn st) (pp_key pk) = Some d -> unexpired st (pp_key pk) (e_now e) ->
     lan_follows P e pk d (lan_ingress P e st (0%Z, Some pk)) /\
     (e_ingress_if e = 0 -> wan_follows e pk d (wan_egress P e st (0%Z, Some pk))).
-Proof. intros; split; [apply lan_follows_proof | intro; apply wan_follows_proof]; assumption. Qed.
+Proof. exact C03_sticky_decision_verdict_glue. Qed.
 Print Assumptions C03_sticky_decision_verdict.
 
 (* The per-flow record through the bytes: what C stores in struct conn_state / struct routing_handoff_entry, read
@@ -184,13 +184,85 @@ Theorem C03_handoff_roundtrip :
       (forall s, tab_get (ks_conn st) k = Some s -> wf_cstate s) ->
       (forall h, tab_get (ks_hand st) k = Some h -> wf_hentry h) ->
       go_retrieve_bytes st k now = go_retrieve st k now).
-Proof.
-  exact (conj conn_roundtrip_proof (conj hand_roundtrip_proof (conj key_bytes_proof
-           (conj key_bytes_injective_proof retrieve_bytes_proof)))).
-Qed.
+Proof. exact C03_handoff_roundtrip_glue. Qed.
 Print Assumptions C03_handoff_roundtrip.
 
-(*HOOK_THEOREMS*)
+(* Refinement: for every state in which stateless datagrams are untracked (an invariant of the hooks), every
+   environment and every frame handled by either parse path, the LAN-ingress and WAN-egress hook models return
+   the verdict of the specification (spec_lan_ingress / spec_wan_egress as built) on the reference parse of the
+   frame, the control plane recovers exactly the specification's per-flow record (ToDae ... r), and the table
+   of tracked flows evolves as the specification says; the reverse-direction hooks only maintain the table. *)
+Theorem C03_hooks_refine_spec :
+  forall P e st eth proto pf lin f,
+    inv st -> 0 < e_now e ->
+    let r := parse_transport eth proto pf lin f in
+    let p := classify (parse_slow eth proto f) in
+    let t := abs_conn (ks_conn st) in
+    (let h := lan_ingress P e st (parse_packet r) in
+     observe h (p_key p) (e_now e) = fst (spec_lan_ingress P e t p) /\
+     abs_conn (ks_conn (h_st h)) = snd (spec_lan_ingress P e t p) /\ inv (h_st h)) /\
+    (let h := wan_egress P e st (parse_packet r) in
+     observe h (p_key p) (e_now e) = fst (spec_wan_egress false P e t p) /\
+     abs_conn (ks_conn (h_st h)) = snd (spec_wan_egress false P e t p) /\ inv (h_st h)) /\
+    (forall le, let h := reverse_hook le e st r in
+     abs_conn (ks_conn (h_st h)) = spec_reverse_hook e t p /\ inv (h_st h) /\ ks_hand (h_st h) = ks_hand st).
+Proof. exact C03_hooks_refine_spec_glue. Qed.
+Print Assumptions C03_hooks_refine_spec.
+
+(* Freshly routed packets: the first packet (pure SYN) of a TCP connection, routed by the installed rule
+   program to decision d, in any state and environment, on any frame and parse path.  [lan]/[wan] below are the
+   observed verdicts at LAN ingress and (for locally originated packets not sent by dae) at WAN egress. *)
+(* direct passes: forwarded traffic with the rule's mark set; local traffic without mark untouched *)
+Theorem C03_direct_passes :
+  forall P e st eth proto pf lin f d,
+    inv st -> 0 < e_now e -> fresh_syn eth proto f ->
+    let p := classify (parse_slow eth proto f) in
+    d_out d = OUT_DIRECT ->
+    (decide (e_route e (query e p false)) = Some d -> fresh_lan P e st eth proto pf lin f = Pass (Some (d_mark d))) /\
+    (wan_local P e -> decide (e_route e (query e p true)) = Some d -> d_mark d = 0 ->
+     fresh_wan P e st eth proto pf lin f = Pass (Some 0)).
+Proof. exact C03_direct_passes_glue. Qed.
+Print Assumptions C03_direct_passes.
+
+(* block drops *)
+Theorem C03_block_drops :
+  forall P e st eth proto pf lin f d,
+    inv st -> 0 < e_now e -> fresh_syn eth proto f ->
+    let p := classify (parse_slow eth proto f) in
+    d_out d = OUT_BLOCK ->
+    (decide (e_route e (query e p false)) = Some d -> fresh_lan P e st eth proto pf lin f = Drop) /\
+    (wan_local P e -> decide (e_route e (query e p true)) = Some d -> fresh_wan P e st eth proto pf lin f = Drop).
+Proof. exact C03_block_drops_glue. Qed.
+Print Assumptions C03_block_drops.
+
+(* a group whose health bit for the protocol and family is down drops (port 53 is always "alive": group_alive) *)
+Theorem C03_dead_group_drops :
+  forall P e st eth proto pf lin f d,
+    inv st -> 0 < e_now e -> fresh_syn eth proto f ->
+    let p := classify (parse_slow eth proto f) in
+    d_out d <> OUT_BLOCK ->
+    group_alive e (d_out d) (k_proto (p_key p) =? IPPROTO_UDP) (k_dport (p_key p)) = false ->
+    (d_out d <> OUT_DIRECT -> decide (e_route e (query e p false)) = Some d -> fresh_lan P e st eth proto pf lin f = Drop) /\
+    (wan_local P e -> (d_out d =? OUT_DIRECT) && (d_mark d =? 0) = false ->
+     decide (e_route e (query e p true)) = Some d -> fresh_wan P e st eth proto pf lin f = Drop).
+Proof. exact C03_dead_group_drops_glue. Qed.
+Print Assumptions C03_dead_group_drops.
+
+(* a live proxy group (and, for local traffic, direct with a mark) is redirected to dae, and the control plane
+   recovers from the kernel maps exactly the decision, DSCP, source MAC and (local traffic) process *)
+Theorem C03_proxy_redirects_with_record :
+  forall P e st eth proto pf lin f d,
+    inv st -> 0 < e_now e -> fresh_syn eth proto f ->
+    let p := classify (parse_slow eth proto f) in
+    d_out d <> OUT_BLOCK ->
+    group_alive e (d_out d) (k_proto (p_key p) =? IPPROTO_UDP) (k_dport (p_key p)) = true ->
+    (d_out d <> OUT_DIRECT -> decide (e_route e (query e p false)) = Some d ->
+     fresh_lan P e st eth proto pf lin f = ToDae (P_peer P) IPPROTO_TCP (the_record e p d false)) /\
+    (wan_local P e -> (d_out d =? OUT_DIRECT) && (d_mark d =? 0) = false ->
+     decide (e_route e (query e p true)) = Some d ->
+     fresh_wan P e st eth proto pf lin f = ToDae false IPPROTO_TCP (the_record e p d true)).
+Proof. exact C03_proxy_redirects_with_record_glue. Qed.
+Print Assumptions C03_proxy_redirects_with_record.
 
 (* Non-vacuity: an established proxied TCP flow in the table; its ACK packet is redirected with the record,
    and a WAN-originated reply flow (entry without decision) passes. *)
@@ -203,4 +275,4 @@ Example C03_nonvacuous :
   observe (lan_ingress (mk_param 77 0 false) e st (0%Z, Some pk)) k 5000
     = ToDae false 0 (mk_frec (mk_dec 7 3 1) 46 0x020000000002 0 0) /\
   observe (lan_ingress (mk_param 77 0 false) e st' (0%Z, Some pk)) k 5000 = Pass None.
-Proof. vm_compute. split; reflexivity. Qed.
+Proof. exact C03_nonvacuous_glue. Qed.
